@@ -330,8 +330,18 @@ def allPaths (T : Table) : List (Str × List (Str × Unit)) :=
 def padLang (P : List (Str × List (Str × Unit))) (ps : Paths) : Paths :=
   P.foldl (fun acc pc => upd pc.1 (fun o => pc.2.foldl (fun fs c => upd c.1 (fun o3 => o3.getD true) fs) (o.getD [])) acc) ps
 
-/-- `_add_empty_translations`, survey.py:886-903 -/
-def pad (T : Table) : Table := T.map fun lps => (lps.1, padLang (allPaths T) lps.2)
+/-- ids `list-idx` of every choice of every list that requires itext, each with the content type
+`long` (`paths.setdefault(f"{list_name}-{idx}", {"long": None})`) -/
+def choicePaths (lists : List CList) : List (Str × List (Str × Unit)) :=
+  (lists.flatMap listIds).map fun i => (i, [("long".toList, ())])
+
+/-- `paths` after the choice ids have joined it (`setdefault`: an id already present keeps its entry) -/
+def allPathsC (lists : List CList) (T : Table) : List (Str × List (Str × Unit)) :=
+  (choicePaths lists).foldl (fun a pc => upd pc.1 (fun o => o.getD pc.2) a) (allPaths T)
+
+/-- `_add_empty_translations`, survey.py:886-912 (with no language at all there is nothing to pad) -/
+def pad (lists : List CList) (T : Table) : Table :=
+  T.map fun lps => (lps.1, padLang (allPathsC lists T) lps.2)
 
 /-- one `<translation>`: language, `default="true()"` mark, and per `<text id>` the `form`
 attributes of its `<value>` children (`none` = no form attribute) -/
@@ -440,6 +450,8 @@ def searchErrors (fs : List Flat) (f : Flat) : List String :=
   (match f.d.itemset with
    | some s => if isExternalExt (splitExt s) then ["searchFromFile"] else []
    | none => []) ++
+  -- survey.py:831-838 (after the from-file test): a search() select needs its own Itemset
+  (if !f.d.hasChoices && !isExternalExt (splitExt (f.d.itemset.getD [])) then ["searchNoChoices"] else []) ++
   (if fs.any (fun g => g.d.cls == .select && !isSearch g.d && g.d.list == f.d.list) then ["searchConflict"] else [])
 
 def errors (fs : List Flat) : List String :=
@@ -451,8 +463,7 @@ def unsupportedElem (f : Flat) : List String :=
   let d := f.d
   (if d.cls == .other then ["element class"] else []) ++
   (if d.flat then ["flat"] else []) ++
-  (if isSearchSelect f && (d.itemset.isNone || (!d.hasChoices && !isExternalExt (splitExt (d.itemset.getD []))))
-    then ["search() select without choices"] else []) ++
+  (if isSearchSelect f && d.itemset.isNone then ["search() select without itemset"] else []) ++
   (if d.cls == .select && !isSearch d && d.hasChoices && (d.itemset.getD []).isEmpty then ["select without itemset"] else []) ++
   (if d.cls == .inert && (d.label != .none || d.hint != .none || d.media.isSome || !d.msgs.isEmpty) then ["inert element with text"] else [])
 
@@ -477,7 +488,7 @@ def rootKids : Elem → List Elem
 /-- the elements below the survey root, with xpaths -/
 def flats (x : Survey) : List Flat := flattenL ('/' :: (rootD x.root).name) false (rootKids x.root)
 
-def table (x : Survey) : Table := pad (setup (entries x.defaultLanguage x.lists (flats x)))
+def table (x : Survey) : Table := pad x.lists (setup (entries x.defaultLanguage x.lists (flats x)))
 
 def out (x : Survey) : Out :=
   let fs := flats x
